@@ -531,6 +531,17 @@ func (c *Conn) Parse(data []byte) (retErr error) {
 					} else {
 						c.expectingFragments = true
 					}
+				} else {
+					// frames are only streamed to the data-frame handler: nothing
+					// is assembled, but where a message starts and ends is tracked
+					// all the same, validFrame depends on it.
+					if fin {
+						c.msgType = 0
+						c.compress = false
+						c.expectingFragments = false
+					} else {
+						c.expectingFragments = true
+					}
 				}
 			case PingMessage, PongMessage, CloseMessage:
 				isProtocolMessage = true
